@@ -97,8 +97,21 @@ def run_harness(exe, job_lines_batches, outdir, prefix, parallel=16, timeout=120
             while start < len(lines):
                 p = subprocess.run([exe], input=("\n".join(lines[start:]) + "\n").encode(), stdout=subprocess.PIPE,
                                    stderr=subprocess.PIPE, timeout=timeout, env=e)
-                fout.write(p.stdout)
+                # a killed harness may leave a partial last line: keep complete events only
+                fout.write(p.stdout if p.returncode >= 0 else p.stdout[:p.stdout.rfind(b"\n") + 1])
                 rc = p.returncode; err = p.stderr.decode(errors="replace")[-3000:]
+                if rc < 0:
+                    # the harness itself was killed (out of memory, stack exhaustion in the handler...): the session being processed is the
+                    # last one whose Open event was written; record that as a crash and go on with the next session
+                    nopen = sum(1 for l in p.stdout.split(b"\n") if l.startswith(b'{"e":"Open"'))
+                    starts = [i for i in range(start, len(lines)) if lines[i].startswith("RAW")]
+                    if nopen == 0 or nopen > len(starts) or crashes > 200:
+                        break
+                    fout.write(('{"e":"Crashed","sig":%d}\n' % (-rc)).encode())
+                    crashes += 1
+                    start = starts[nopen] if nopen < len(starts) else len(lines)
+                    rc = 0
+                    continue
                 if rc != 99:
                     break
                 crashes += 1
@@ -113,6 +126,21 @@ def run_harness(exe, job_lines_batches, outdir, prefix, parallel=16, timeout=120
                         nxt += 1
                 start = nxt
                 rc = 0
+        # an event line broken off by an exception raised while the harness was READING the state (a corrupted container makes the dump
+        # itself throw, e.g. bad_alloc) is replaced by a Crashed event: the state of the code under test is no longer a state
+        with open(tf, "rb") as f:
+            data = f.read()
+        if b'"{"e":' in data or b',{"e":"HarnessException"' in data or re.search(rb'[^\n]\{"e":"(HarnessException|Crashed)"', data):
+            out = []
+            for line in data.split(b"\n"):
+                k = line.find(b'{"e":', 1)
+                if k > 0:
+                    out.append(b'{"e":"Crashed","sig":0}')
+                    crashes += 1
+                elif line:
+                    out.append(line)
+            with open(tf, "wb") as f:
+                f.write(b"\n".join(out) + b"\n")
         return tf, rc, err, crashes
     with cf.ThreadPoolExecutor(max_workers=parallel) as ex:
         return list(ex.map(one, range(len(job_lines_batches))))
